@@ -38,8 +38,11 @@ def run(ctx):
             raise vf.Inconclusive("walked %d of %d" % (walked, len(ch)))
         for (line, seq, kind, clauses, _) in rejects:
             r = ch[line - 1]
-            if any(c.startswith("H_") for c in clauses):
+            # a harness sanity clause alone says the harness is wrong; next to clauses of the property it is a consequence
+            # (a dialect that does not initialise cannot be looked up)
+            if all(c.startswith("H_") for c in clauses):
                 raise vf.Inconclusive("harness sanity clause failed: %s" % clauses)
+            clauses = [c for c in clauses if not c.startswith("H_")]
             ident = {"DIALECT": lambda: r["name"], "XTYPE": lambda: "%s#%d" % (r["name"], r["id"]), "XENUM": lambda: r["const"],
                      "GOLD": lambda: dnames[r["d"] - 1]["type"].split("/")[-1], "DINIT": lambda: r["case"]}[kind]()
             rr = dict(r)
